@@ -815,7 +815,78 @@ def _r9(repo: Repo, ctx) -> None:
                sample='sign group compared with \'-\'')
 
 
+def _r10(repo: Repo, ctx) -> None:
+    """C19.R10 what is stored comes back.
+
+    (a) from_json installs every entry of the JSON document whose setting
+        exists in the spec: inside the loop the only `continue` is the one
+        under `setting is None`.  An entry dropped for any value-dependent
+        reason (equal to the default, falsy ...) changes which scope defines
+        the setting, so lookup() falls through to a less specific scope.
+    (b) config objects compare their type specs by value.  Specs are
+        re-derived from the schema (value-equal, not identical) between an
+        INSERT and the filtered RESET that removes the object; with an
+        identity test `exist - {value}` removes nothing."""
+    ctx.floor('C19.R10', 2)
+    fj = repo.func(f'{OPS}.from_json')
+    ctx.saw(fj)
+    loops = [l for l in ast.walk(fj.node) if isinstance(l, ast.For)
+             and 'items()' in norm(l.iter)]
+    if len(loops) != 1:
+        raise AnalysisError('C19.R10: entry loop of from_json not found')
+    lp = loops[0]
+    tgt = {x.id for x in ast.walk(lp.target) if isinstance(x, ast.Name)}
+    setting_var = None
+    for a in lp.body:
+        if isinstance(a, ast.Assign) and isinstance(a.value, ast.Call) and \
+                norm(a.value.func).endswith('spec.get'):
+            setting_var = norm(a.targets[0])
+    if setting_var is None:
+        raise AnalysisError('C19.R10: spec lookup in from_json not found')
+    bad = []
+
+    def scan(stmts, conds):
+        for st in stmts:
+            if isinstance(st, (ast.Continue, ast.Break)):
+                if conds != [f'{setting_var} is None']:
+                    bad.append(' and '.join(conds) or 'unconditionally')
+            elif isinstance(st, ast.If):
+                scan(st.body, conds + [norm(st.test)])
+                scan(st.orelse, conds + [f'not ({norm(st.test)})'])
+            elif isinstance(st, (ast.For, ast.While, ast.With, ast.Try)):
+                for fld in ('body', 'orelse', 'finalbody'):
+                    scan(getattr(st, fld, []) or [], conds)
+    scan(lp.body, [])
+    stores = [a for a in ast.walk(lp) if isinstance(a, ast.Assign) and
+              isinstance(a.targets[0], ast.Subscript) and
+              norm(a.targets[0].slice) in tgt]
+    ctx.ob('C19.R10', 'from_json:every-known-entry-installed',
+           not bad and len(stores) == 1 and stores[0] in lp.body,
+           f'from_json skips entries {bad or "(store is conditional)"}: a '
+           f'setting explicitly pinned at a more specific scope is gone '
+           f'after the JSON round trip and lookup() answers from a less '
+           f'specific scope', fj.loc,
+           sample='only `setting is None` skips an entry')
+    # (b)
+    cct = repo.cls(f'{CFGMOD}.types.CompositeConfigType')
+    eq = cct.methods.get('__eq__')
+    if eq is None:
+        raise AnalysisError('C19.R10: CompositeConfigType.__eq__ not found')
+    ctx.saw(eq)
+    ident = [norm(c) for c in ast.walk(eq.node) if isinstance(c, ast.Compare)
+             and any(isinstance(o, (ast.Is, ast.IsNot)) for o in c.ops)
+             and not any(isinstance(x, ast.Constant) and x.value is None
+                         for x in [c.left] + c.comparators)]
+    ctx.ob('C19.R10', 'CompositeConfigType.__eq__:by-value', not ident,
+           f'config objects are compared through an identity test '
+           f'({ident}): type specs are re-derived from the schema on every '
+           f'load (value-equal, different objects), so the object a '
+           f'filtered RESET builds never equals the stored one and nothing '
+           f'is removed', eq.loc, sample='self._tspec != rhs._tspec')
+
+
 def run(repo: Repo, ctx) -> None:
     _run_main(repo, ctx)
     _r8(repo, ctx)
     _r9(repo, ctx)
+    _r10(repo, ctx)
